@@ -29,9 +29,9 @@ def run(rep, tier, seed):
     for n in range(1, (3 if tier == "quick" else 4) + 1):
         for w in itertools.product(core, repeat=n):
             scripts.append(list(w))
-    if tier == "quick" and len(scripts) > 700:
+    if tier == "quick" and len(scripts) > 2000:
         scripts = rng.sample(scripts, 700)
-    for _ in range(500 if tier == "quick" else 12000):
+    for _ in range(2000 if tier == "quick" else 12000):
         scripts.append([rng.choice(nav) if rng.random() < 0.85 else "EDIT" for _ in range(rng.randint(3, 8))])
     rng.shuffle(scripts)
     cases = []
@@ -64,7 +64,7 @@ def run(rep, tier, seed):
             cs["sessions"].append(sess)
         cases.append(cs)
     # Ctrl-R / Ctrl-S sessions typed key by key
-    for ci in range(120 if tier == "quick" else 1500):
+    for ci in range(400 if tier == "quick" else 1500):
         hist = [rng.choice(ENTRIES) for _ in range(rng.choice([0, 1, 2, 3, 4]))]
         if rng.random() < 0.6:
             # entries that extend the texts typed below (this library searches among those)
